@@ -128,7 +128,8 @@ fn iscalar_i(v: i64) -> Option<In> {
     it(LT::scalar(Dt::I32, v as f64))
 }
 fn fi(rng: &mut SplitMix64) -> Dt {
-    if rng.chance(2, 3) { Dt::F32 } else { Dt::I32 }
+    let f = rng.chance(2, 3);
+    if f || inexact_floats() { Dt::F32 } else { Dt::I32 }
 }
 
 const UNARY_F32: &[&str] = &[
@@ -204,7 +205,14 @@ fn gen_inner(key: &str, rng: &mut SplitMix64) -> Option<Gen> {
         return Some((none, vec![it(t(rng, dt, &s))], 1));
     }
     if BINARY_FI.contains(&key) {
-        let (sa, sb) = bpair(rng);
+        let (mut sa, mut sb) = bpair(rng);
+        if inexact_floats() && rng.chance(if key == "Div" { 2 } else { 1 }, 4) {
+            // a second operand with exactly one element (scalar shortcuts such as x * (1/d))
+            if numel(&sa) < 4 {
+                sa = vec![2 + rng.upto(2), 2 + rng.upto(2)];
+            }
+            sb = vec![1; rng.upto(sa.len().min(2))];
+        }
         let dt = fi(rng);
         let a = t(rng, dt, &sa);
         let b = if key == "Div" { LT::rand_nonzero(rng, dt, &sb, -4, 4) } else { t(rng, dt, &sb) };
@@ -700,6 +708,23 @@ fn gen_inner(key: &str, rng: &mut SplitMix64) -> Option<Gen> {
                 inputs.push(it(t(rng, Dt::F32, &sb)));
             }
             (vec![astr("equation", eq)], inputs, 1)
+        }
+        "Conv" | "ConvInteger" if rng.chance(1, 2) => {
+            // pointwise: 1x1 kernel, no padding, unit strides, one group (its own code path)
+            let (n, c, m, h, w) = (1 + rng.upto(1), 2 + rng.upto(2), 1 + rng.upto(2), 2 + rng.upto(2), 2 + rng.upto(2));
+            let mut attrs = vec![ais("kernel_shape", &[1, 1])];
+            if rng.chance(1, 2) {
+                attrs.push(ais("strides", &[1, 1]));
+            }
+            if key == "ConvInteger" {
+                (attrs, vec![it(t(rng, Dt::U8, &[n, c, h, w])), it(t(rng, Dt::I8, &[m, c, 1, 1]))], 1)
+            } else {
+                let mut inputs = vec![it(t(rng, Dt::F32, &[n, c, h, w])), it(t(rng, Dt::F32, &[m, c, 1, 1]))];
+                if rng.chance(1, 2) {
+                    inputs.push(it(t(rng, Dt::F32, &[m])));
+                }
+                (attrs, inputs, 1)
+            }
         }
         "Conv" | "ConvInteger" | "ConvTranspose" => {
             let nd = 1 + rng.upto(1); // spatial dims
